@@ -97,6 +97,10 @@ class BasePolicy:
     def initial(self, flow) -> Dict[str, FrozenSet[str]]:
         return {}
 
+    def default_tags(self, path: str) -> FrozenSet[str]:
+        """tags of a storage path that has not been assigned in this function."""
+        return EMPTY
+
 
 class TagFlow:
     def __init__(self, prog, fn, policy: BasePolicy):
@@ -109,17 +113,26 @@ class TagFlow:
         self._run()
 
     # state helpers ------------------------------------------------------
-    @staticmethod
-    def _meet(a: Optional[dict], b: Optional[dict]) -> Optional[dict]:
+    def _meet(self, a: Optional[dict], b: Optional[dict]) -> Optional[dict]:
+        """Join = intersection of must-tags.  A *local name* absent from one
+        side is unbound there (using it raises NameError, so that origin is
+        vacuous): the other side's tags survive.  A storage path (attribute,
+        state key) absent from one side still holds its prior value there: the
+        policy's default for that path takes part in the intersection."""
         if a is None:
             return None if b is None else dict(b)
         if b is None:
             return dict(a)
         out = {}
-        for k in a.keys() & b.keys():
-            v = a[k] & b[k]
-            if v:
-                out[k] = v
+        for k in a.keys() | b.keys():
+            if k in a and k in b:
+                out[k] = a[k] & b[k]
+            else:
+                v = a[k] if k in a else b[k]
+                if k.isidentifier():
+                    out[k] = v
+                else:
+                    out[k] = v & self.policy.default_tags(k)
         return out
 
     def _assign(self, state, target, tags, value=None):
@@ -134,10 +147,7 @@ class TagFlow:
             return
         p = path_of(target)
         if p is not None:
-            if tags:
-                state[p] = tags
-            else:
-                state.pop(p, None)
+            state[p] = tags
             # a rebinding of ``x`` invalidates facts about ``x.attr``
             for k in [k for k in state if k.startswith(p + ".")]:
                 del state[k]
@@ -145,12 +155,9 @@ class TagFlow:
         if isinstance(target, ast.Subscript):
             # partial in-place update: weak
             bp = path_of(target.value)
-            if bp is not None and bp in state:
-                v = state[bp] & tags
-                if v:
-                    state[bp] = v
-                else:
-                    del state[bp]
+            if bp is not None:
+                cur = state[bp] if bp in state else self.policy.default_tags(bp)
+                state[bp] = cur & tags
 
     def _transfer(self, node, state: dict) -> dict:
         s = node.stmt
@@ -185,13 +192,19 @@ class TagFlow:
                     self._assign(state, it.optional_vars, EMPTY)
         elif node.kind == "handler":
             if s.name:
-                state.pop(s.name, None)
+                state[s.name] = EMPTY
         return pol.after_stmt(node, state, self)
 
     def _run(self):
         cfg = self.cfg
         order = list(range(len(cfg.nodes)))
-        self.out[cfg.entry.id] = dict(self.policy.initial(self))
+        init = {}
+        args = getattr(self.fn.node, "args", None)
+        if args is not None:
+            for a_ in list(args.posonlyargs) + list(args.args) + list(args.kwonlyargs) + ([args.vararg] if args.vararg else []) + ([args.kwarg] if args.kwarg else []):
+                init[a_.arg] = EMPTY
+        init.update(self.policy.initial(self))
+        self.out[cfg.entry.id] = init
         work = list(cfg.g.successors(cfg.entry.id))
         iters = 0
         while work:
